@@ -26,3 +26,7 @@ CHECKS["C09"] = c09_check.run
 import c13_check
 CHECKS["C13"] = c13_check.run
 CHECKS["C19"] = c13_check.run
+
+import c20_check
+CHECKS["C20"] = c20_check.run
+CHECKS["C18"] = c20_check.run
